@@ -221,6 +221,23 @@ pub enum NextOutcome<T> {
     Empty(u64),
     /// Dropped after the requested number of `Pending`s.
     Cancelled(u64),
+    /// The future returned `Pending` while no store call was in flight, the store's last answer
+    /// was not "queue empty", and nothing had woken the task: it waits on the orderer's own
+    /// in-memory state (its notify / mutex) and only another call on the orderer can complete it.
+    /// The future was dropped; the caller decides on the state of the ready queue.
+    Parked(u64),
+}
+
+struct WakeFlag {
+    woken: std::sync::atomic::AtomicBool,
+    inner: std::task::Waker,
+}
+
+impl std::task::Wake for WakeFlag {
+    fn wake(self: std::sync::Arc<Self>) {
+        self.woken.store(true, std::sync::atomic::Ordering::SeqCst);
+        self.inner.wake_by_ref();
+    }
 }
 
 /// Polls a `next()` future with the task's real waker. Returns `Empty` once the probe has seen
@@ -248,13 +265,29 @@ impl<F: Future> Future for DriveNext<F> {
     fn poll(mut self: Pin<&mut Self>, cx: &mut Context<'_>) -> Poll<Self::Output> {
         let this = &mut *self;
         let fut = this.fut.as_mut().expect("polled after completion");
-        match fut.as_mut().poll(cx) {
+        // Real waker underneath, plus a flag that tells whether anything woke us during this poll.
+        let flag = std::sync::Arc::new(WakeFlag { woken: std::sync::atomic::AtomicBool::new(false), inner: cx.waker().clone() });
+        let waker = std::task::Waker::from(flag.clone());
+        let mut cx2 = Context::from_waker(&waker);
+        match fut.as_mut().poll(&mut cx2) {
             Poll::Ready(v) => {
                 this.fut = None;
                 Poll::Ready(NextOutcome::Done(v, this.pendings))
             }
             Poll::Pending => {
                 this.pendings += 1;
+                let in_flight = {
+                    let log = this.log.borrow();
+                    let mut n = 0i64;
+                    for e in log.iter().skip(this.from) {
+                        match e {
+                            PEv::Start(_) => n += 1,
+                            PEv::End(..) | PEv::Dropped(_) => n -= 1,
+                            PEv::Mark(_) => {}
+                        }
+                    }
+                    n
+                };
                 let empty = {
                     let log = this.log.borrow();
                     // Parked after the store said "none": the last call event is that answer.
@@ -264,6 +297,10 @@ impl<F: Future> Future for DriveNext<F> {
                 if empty {
                     this.fut = None;
                     return Poll::Ready(NextOutcome::Empty(this.pendings));
+                }
+                if in_flight == 0 && !flag.woken.load(std::sync::atomic::Ordering::SeqCst) {
+                    this.fut = None;
+                    return Poll::Ready(NextOutcome::Parked(this.pendings));
                 }
                 if this.cancel_after != 0 && this.pendings >= this.cancel_after {
                     this.fut = None;
@@ -299,4 +336,15 @@ pub fn released_by_store(events: &[PEv]) -> Vec<String> {
         }
     }
     out
+}
+
+/// Number of items sitting in the ready queue (`in_queue = TRUE`), read directly. `None` when the
+/// query cannot complete within two seconds (e.g. the only connection is held by an open
+/// transaction) or fails.
+pub async fn ready_queue_len(store: &SqliteStore) -> Option<i64> {
+    let q = sqlx::query_scalar::<_, i64>("SELECT COUNT(*) FROM orderer_ready_v1 WHERE in_queue = TRUE").fetch_one(store.pool());
+    match tokio::time::timeout(std::time::Duration::from_secs(2), q).await {
+        Ok(Ok(n)) => Some(n),
+        _ => None,
+    }
 }
